@@ -181,13 +181,13 @@ func (c *compiler) evalUserFunction(node *userFunction, args []ast.Expression) (
 	octx := c.ctx
 	defer func() { c.ctx = octx }()
 
-	if len(args) < len(node.Parameters) {
-		return nil, fmt.Errorf("too few arguments in call to function (%d for %d)", len(args), len(node.Parameters))
+	if len(args) < len(node.parameters) {
+		return nil, fmt.Errorf("too few arguments in call to function (%d for %d)", len(args), len(node.parameters))
 	}
 
 	// evaluate every argument in the caller's scope before binding any parameter
-	vals := make([]interface{}, len(node.Parameters))
-	for i := range node.Parameters {
+	vals := make([]interface{}, len(node.parameters))
+	for i := range node.parameters {
 		a := args[i]
 		v, err := c.evalExpression(a)
 		if err != nil {
@@ -198,11 +198,11 @@ func (c *compiler) evalUserFunction(node *userFunction, args []ast.Expression) (
 	}
 
 	c.ctx = c.ctx.New()
-	for i, p := range node.Parameters {
+	for i, p := range node.parameters {
 		c.ctx.Set(p.Value, vals[i])
 	}
 
-	res, err := c.evalBlockStatement(node.Block)
+	res, err := c.evalBlockStatement(node.block)
 	if err != nil {
 		return nil, err
 	}
@@ -223,7 +223,7 @@ func (c *compiler) evalUserFunction(node *userFunction, args []ast.Expression) (
 func (c *compiler) evalFunctionLiteral(node *ast.FunctionLiteral) (interface{}, error) {
 	params := node.Parameters
 	block := node.Block
-	return &userFunction{Parameters: params, Block: block}, nil
+	return &userFunction{parameters: params, block: block}, nil
 }
 
 // tolerableUnknown reports whether err is the unknown-identifier error of the
